@@ -118,3 +118,13 @@ func (o *Op) TakeSaves() []Saved {
 	o.store.saves = nil
 	return s
 }
+
+// LearnDecided hands operator id a valid quorum certificate for another height directly (the rest
+// of the committee has moved on and decided it): Controller.ProcessMsg -> UponDecided. It is not
+// an event of the search (no trace entry); callers apply it to a clone.
+func (w *World) LearnDecided(id spectypes.OperatorID, h specqbft.Height, val byte, signers []spectypes.OperatorID) error {
+	o := w.Op(id)
+	_, err := o.Ctrl.ProcessMsg(Log, w.C.Certificate(h, 1, val, signers))
+	w.collect(o, Report{Op: id})
+	return err
+}
